@@ -5,8 +5,8 @@ import (
 	"context"
 	"encoding/json"
 	"fmt"
-	"os"
 	"io/fs"
+	"os"
 	"sort"
 	"strings"
 	"testing/fstest"
